@@ -51,11 +51,15 @@ theorem p8_foldl {α : Type} (f : Stack → α → Stack) (h : ∀ s x, P8c (pi8
   | nil => exact hp
   | cons x t ih => rw [List.foldl_cons]; exact ih _ (h s x hp)
 
+theorem p8_flushTo (s : Stack) (es : List SDEntry) (d : Dest) (hp : P8c (pi8 s)) : P8c (pi8 (s.flushTo es d)) := by
+  unfold flushTo
+  exact p8_sendSd _ _ _ (by simpa using hp)
+
 theorem p8_queueSend (s : Stack) (e : SDEntry) (d : Dest) (hp : P8c (pi8 s)) : P8c (pi8 (s.queueSend e d)) := by
   unfold queueSend
   simp only []
   split
-  · exact p8_sendSd _ _ _ (by simpa using hp)
+  · exact p8_flushTo _ _ _ (by simpa using hp)
   · split
     · split <;> simpa using hp
     · simpa using hp
@@ -64,7 +68,7 @@ theorem p8_collectorTimeout (s : Stack) (c : Nat) (hp : P8c (pi8 s)) : P8c (pi8 
   unfold collectorTimeout
   split
   · exact hp
-  · exact p8_sendSd _ _ _ (by simpa using hp)
+  · exact p8_flushTo _ _ _ (by simpa using hp)
 
 theorem p8_sendOffer (s : Stack) (i : Nat) (r : Dest) (b : Bool) (hp : P8c (pi8 s)) : P8c (pi8 (s.sendOffer i r b)) := by
   unfold sendOffer
